@@ -325,6 +325,8 @@ def preprocess(template: Path, checks, defs=None):
     txt = template.read_text()
     for k, v in (defs or {}).items():
         txt = txt.replace("{{" + k + "}}", v)
+    # CHECKS_PRE(value, n): the extra precondition of write_bits in the `checks` configuration
+    txt = re.sub(r"CHECKS_PRE\((\w+), (\w+)\)", (lambda m: f"({m.group(1)} as nat) < pow2({m.group(2)} as nat),") if checks else "", txt)
     if "{{" in txt and "}}" in txt:
         m = re.search(r"\{\{(\w+)\}\}", txt)
         if m:
@@ -382,6 +384,9 @@ def rewrite_map_err(body, log):
         depth = 0
         while k >= 0:
             c = body[k]
+            if c == "}" and depth == 0 and "\n" in body[k:m.start()] and body[k + 1:m.start()].lstrip().startswith(("bit_write", "self", "backend", "bit_read")):
+                # a block that ended on an earlier line is a statement boundary, not part of the receiver
+                break
             if c in ")]}":
                 depth += 1
             elif c in "([{":
